@@ -12,6 +12,9 @@ use crate::gen::{self, Class};
 use crate::util::{guarded, jlist, jobj, jstr, panic_sig, run_cases, Agg, CaseOut, Rng, RunCfg};
 
 pub fn run(cfg: &RunCfg, agg: &Mutex<Agg>) {
+    // the lazily built global tables are allocated on first use, whoever
+    // touches them first: build them all before anything is measured
+    let _ = crate::mon_c16::role(6, 0, false);
     run_cases(agg, cfg, "encoder-alloc", crate::count(cfg, 1500, 30_000), |cs, out| {
         history(cs, out, true);
     });
@@ -249,6 +252,10 @@ fn history(case_seed: u64, out: &mut CaseOut, encoder: bool) {
     for (s1, s8) in a.iter().zip(&b) {
         out.evals += 1;
         let delta = s8.stats.bytes.saturating_sub(s1.stats.bytes);
+        let class = if s1.is_round { "rounds" } else if s1.need <= s1.held_before && s8.need <= s8.held_before { "non-growing steps" } else { "growing steps" };
+        out.add(format!("bytes allocated in {class} at S"), s1.stats.bytes);
+        out.add(format!("bytes allocated in {class} at 8S"), s8.stats.bytes);
+        out.add(format!("allocation calls in {class}"), s1.stats.count + s8.stats.count);
         if s1.is_round {
             rounds += 1;
             if delta >= s1.shard as u64 {
